@@ -165,7 +165,8 @@ See also: fixed, rational
         stringify a guarded value
         print at specified display precision
         '''
-        v = self._value
+        sign = '-' if self._value < 0 else ''
+        v = abs(self._value)    # format the magnitude; // and % floor toward -infinity
         #
         #  gv trims off the digits we aren't going to display at all.
         #  normally that's the guard digits, but it could be more if display<precision
@@ -178,7 +179,7 @@ See also: fixed, rational
             #  we'll show <precision> digits, then _, then (display-precision) digits
             gvp = gv % self.__scaled
             s = Guarded.__dfmt % (gv // self.__scaled, gvp // self.__scaledg, gvp % self.__scaledg)
-        return s
+        return sign + s
 
     def __init__(self, arg, setval=False):
         "create a new Guarded object"
